@@ -75,6 +75,12 @@ func (w *W) Mine() bool {
 	return true
 }
 
+// MineKey decides ownership by a structural key instead of the running counter (for bodies whose later choice
+// points depend on the execution, so that every execution of one structure lands on the same worker).
+func (w *W) MineKey(h uint64) bool {
+	return w.N <= 1 || int(h%uint64(w.N)) == w.Idx
+}
+
 // CaseIndex is the index of the case most recently offered to Mine.
 func (w *W) CaseIndex() int64 { return w.caseCounter - 1 }
 
